@@ -27,6 +27,7 @@ type randCase struct {
 	Count   int   `json:"count"`
 	Depth   int   `json:"depth"`
 	Objects bool  `json:"objects"` // also generate objects, one-of and self-referential scopes (C03 / C01)
+	Chain   bool  `json:"chain"`   // C01: run the round-trip chain on every pair the real Unserialize accepts
 }
 
 type gen struct {
@@ -697,6 +698,10 @@ func runRand(raw json.RawMessage) any {
 	g := &gen{r: rand.New(rand.NewSource(rc.Seed)), objects: rc.Objects}
 	r := &resT{Evals: 1, Trace: []map[string]any{}}
 	ops := []string{"unser", "unser", "unser", "valid", "ser", "compat"}
+	if rc.Chain {
+		ops = []string{"unser"}
+		r.Evals = 0
+	}
 	for i := 0; i < rc.Count; i++ {
 		depth := 1 + g.pick(rc.Depth)
 		s := g.schema(depth, false)
@@ -715,6 +720,24 @@ func runRand(raw json.RawMessage) any {
 		e := pickOf(g, embs)
 		b, _ := cz.Build(s, e)
 		goArg, _ := cz.ToGo(arg, e)
+		if rc.Chain {
+			accepted, _, _, fails := chainOnce(b.Type, nil, goArg)
+			r.Runs += 8
+			if accepted {
+				r.Evals++
+			}
+			if len(fails) > 0 {
+				f := fails[0]
+				sig := map[string]any{"op": "chain", "step": f.step, "entry": "untyped", "kind_at_fault": s.Kind, "arg_class": arg.Coarse(), "divergence": f.div}
+				if f.frame != "" {
+					sig["frame"] = f.frame
+				}
+				f.det["case"] = map[string]any{"fam": "schema", "s": s, "op": "chain", "arg": arg, "exp": outcome{OK: "maybe"}, "mod": outcome{OK: "maybe"},
+					"sub": []any{}, "wire": outcome{OK: "maybe"}, "emb": e.Name}
+				r.miss(sig, f.det)
+			}
+			continue
+		}
 		o := callUntyped(b.Type, op, goArg)
 		r.Runs++
 		if o.Panic != nil {
